@@ -93,6 +93,13 @@ CHECKS.update({
             "5 C05"),
 })
 
+CHECKS.update({
+    "C14": ("kani", MC, "bounded model checking (Kani/CBMC) of the real entry code on a finite table of concrete path shapes",
+            "For 144 rows (6 spellings of the base x 6 prefixes incl. rooted and `..` x entry depths 0-3; quick tier: a seeded sample of ~25) the root and pivot are computed by the real join_and_get_depth, the walkdir::DirEntry the traversal would deliver is fabricated (mirror transmute), and the real GlobEntry::root_relative_paths / depth are checked against expectations derived from the statement alone: root segment = directory given to the walk (empty for rooted globs), relative segment = prefix components + tail (whole path for rooted), depth = components of the relative segment (rooted: counting or not counting the root). That the relative segment is what is matched / becomes matched() is the C02 step.",
+            "Bounded by the table and stated as such: the solver's symbolic part is only the file/dir flag; std::path on symbolic bytes does not terminate in CBMC. Failures are replayed on real walks (entry-field battery) or by native concrete playback.",
+            "5 C14"),
+})
+
 NOT_APPLICABLE = {
     "C06": "the rule checker and the nom parser feeding it cannot be executed symbolically with what is installed (CBMC: >25 min / 7 GB on a 5-leaf token tree, 1 symbolic byte through the parser >20 min); deciding concrete Glob::new verdicts against a reference would be enumeration, a different technique (DESIGN 5 C06, 6)",
     "C17": "every span originates in the nom parser (pori::span, ErrorEntry::location); without a symbolic expression there is nothing for a solver to decide and slicing concrete expressions is enumeration (DESIGN 5 C17, 6)",
